@@ -233,6 +233,15 @@ def observed(base):
             if o is not None:
                 o.after_refine(self)
 
+        def performSpatiallyAdaptiv(self, *a, **kw):
+            # documented option "recalculate_frequently" (restart the computation from scratch every N refinements): switched on
+            # for the configurations that ask for it, with the public threshold attribute lowered so that short histories reach it
+            n = getattr(self, "verif_recalc", None)
+            if n and "recalculate_frequently" not in kw and len(a) < 7:
+                kw["recalculate_frequently"] = True
+                self.refinements_for_recalculate = n
+            return super().performSpatiallyAdaptiv(*a, **kw)
+
         def evaluate_operation(self):
             if self.vobs is not None:
                 self.vobs.before_evaluate(self)
